@@ -153,7 +153,12 @@ class C20(Property):
     RULE = ('a case is one whole history over 1-3 counters of one threshold (float, Fraction or Decimal): add / '
             'update(positional, **kw) / update(other counter or the counter itself) / re-creation of a counter / '
             'most_common(n) calls over a small key alphabet; every reader of EVERY counter is dumped after every '
-            'mutator (in a per-case reader order). The positional argument is None, one of 9 iterable kinds '
+            'mutator (in a per-case reader order); every container a reader hands back (items/keys/values/most_common '
+            'lists, most_common(n) list, elements/iterkeys iterators) is then modified in place by the caller (reordered, '
+            'entries dropped and added / exhausted) and the reader is asked again with nothing added in between: the '
+            'second answer must be the first; every mutable argument of update() is emptied or polluted after the call '
+            'returned. most_common results are compared up to the order among equal counts (and the choice among ties '
+            'at the cut of most_common(n)); get_commonality() as the exact ratio it stands for. The positional argument is None, one of 9 iterable kinds '
             '(list, generator, tuple, iterator, dict keys view, deque, __getitem__-only sequence, falsy __iter__-only '
             'object, frozenset) or one of 8 mapping kinds (dict, mappingproxy, UserDict, ChainMap with overlapping '
             'maps, Counter, OrderedDict, defaultdict, abc.Mapping subclass), combined with keyword counts whose keys '
@@ -170,8 +175,8 @@ class C20(Property):
             'survives" streams. Non-trivial = at least one compaction happened and at least one key was evicted or '
             'under-counted; distinct = distinct case.')
     ASSUMPTIONS = ['keys are hashable with == consistent with hash; counts in mappings are non-negative ints',
-                   'model parameter w = floor(1/threshold) is computed by the harness (float division for float '
-                   'thresholds, exact rational arithmetic for Fraction / Decimal thresholds)',
+                   'model parameter w = floor(1/threshold) is computed by the harness with float division for float '
+                   'thresholds; Fraction / Decimal thresholds are handed to the model as p/q (its constructor derives w)',
                    'a ThresholdCounter passed to update() counts as the mapping its items() reports at that moment']
     CORRESPONDENCE_NAME = 'C20.Driver (ThresholdCounter model) vs boltons.cacheutils.ThresholdCounter'
 
